@@ -367,12 +367,14 @@ def parseInt? (s : Str) : Option Int :=
 def stepName : Str := "Step".toList
 
 /-- rows with their `Step`; when `needStep` is false (style `all`, which never looks at `Step`) a missing
-    or non-integer `Step` is tolerated. -/
+    or non-integer `Step` is tolerated.  A row too short to reach the `Step` column (pandas pads it with NaN) is
+    a non-integer `Step` like any other junk cell: `.type` = comparison not modelled (the caller has already
+    answered `.attr` for tables without a `Step` column). -/
 def tableRows (needStep : Bool) (t : Table) : Except Err (List Row) :=
   t.rows.mapM (fun r =>
     let cells := t.cols.zip r
     match (cells.find? (fun c => c.1 == stepName)) with
-    | none => if needStep then .error .attr else .ok ⟨0, cells⟩
+    | none => if needStep then .error .type else .ok ⟨0, cells⟩
     | some c => match parseInt? c.2 with
       | none => if needStep then .error .type else .ok ⟨0, cells⟩
       | some s => .ok ⟨s, cells⟩)
